@@ -270,3 +270,13 @@ def ob_h_shared(ob):
 
     ob.note("this obligation is the one registered as C13.a; it is also decided here because the amount of zero padding must not change a molecule's centre-of-mass velocity removal")
     _m.ob_a(ob)
+
+
+# ---- shared obligation: a molecule gives the same result alone and in a batch only if the drivers keep per-molecule state aligned (and sized) when its batch mates converge at other iterations ----
+@obligation(PID, "i", title='[shared with C04.g] SCF drivers under partial convergence (fixed mixing, adaptive mixing, adaptive + Pulay, Krylov subspace KSA): the driver completes, at every density step the Fock matrices of the still-active molecules arrive together with the atom counts and occupation numbers of the same molecules, and the convergence flags returned are those of the schedule — for every order in which the molecules of a batch converge')
+def ob_i_shared(ob):
+    """a molecule gives the same result alone and in a batch only if the drivers keep per-molecule state aligned when its batch mates converge at other iterations"""
+    from . import C04 as _m  # imported lazily: the harness modules share obligations in both directions
+
+    ob.note("this obligation is the one registered as C04.g; it is also decided here because a molecule gives the same result alone and in a batch only if the drivers keep per-molecule state aligned (and of the stored size) when its batch mates converge at other iterations")
+    _m.ob_g(ob)
